@@ -106,7 +106,9 @@ DirSeq == <<
   <<1, <<0, 0, 1, 1>>>>,                        \*  9  one linear element
   <<3, <<0, 0, 0, 0, 2, 2, 2, 2>>>>,            \* 10  cubic Bezier on [0,2]
   <<4, <<0, 0, 0, 0, 0, 1, 1, 1, 1, 1>>>>,      \* 11  quartic Bezier
-  <<2, <<0, 0, 0, 1, 2, 3, 4, 4, 4>>>>          \* 12  quadratic, 4 spans, 6 dofs
+  <<2, <<0, 0, 0, 1, 2, 3, 4, 4, 4>>>>,         \* 12  quadratic, 4 spans, 6 dofs
+  <<2, <<0, 0, 0, 1, 1, 2, 3, 3, 3>>>>,         \* 13  twins: same degree, same breakpoints, same dimension --
+  <<2, <<0, 0, 0, 1, 2, 2, 3, 3, 3>>>>          \* 14  the double knot sits at a different breakpoint
 >>
 DirTuples(d) ==
   IF d = 1 THEN {<<i>> : i \in 1..Len(DirSeq)}
